@@ -97,6 +97,22 @@ func MakeCollisions(w *World, t *tape.Tape, wantConflict, wantDuplicate bool) []
 			b.File = t.Intn(w.NFiles)
 			b.Test = false
 			sfx := longSuffixes[t.Intn(len(longSuffixes))] + fmt.Sprintf("D%d", b.ID)
+			if len(a.Suffix) > 0 && t.Chance(1, 3) {
+				// a name exactly as long as the one it duplicates (the rewrite replaces like by like)
+				for _, lead := range []string{"Q", "R", "W"} {
+					cand := lead + a.Suffix[1:]
+					taken := false
+					for _, c := range cs {
+						if c.Plugin == a.Plugin && c.Suffix == cand {
+							taken = true
+						}
+					}
+					if !taken {
+						sfx = cand
+						break
+					}
+				}
+			}
 			b.Suffix = sfx
 			// position: before or after the original (decides which name survives -dedup)
 			if t.Bool() {
